@@ -3,11 +3,11 @@
 package main
 
 import (
-	"strings"
 	"context"
 	"fmt"
 	"os"
 	"path/filepath"
+	"strings"
 	"sync"
 	"time"
 
@@ -220,7 +220,7 @@ func treeForCase(c xferCase) vk.Tree {
 		cs := int64(c.Cfg.ChunkSize)
 		for i := 0; i < 3; i++ {
 			size := int64(n) * cs
-			if i == 1 {
+			if i == 1 && !strings.HasSuffix(c.Shape, ":full") {
 				size -= cs / 2
 			}
 			t.Entries = append(t.Entries, vk.Entry{Rel: fmt.Sprintf("n%d.bin", i), Size: size})
@@ -394,6 +394,7 @@ func runC03(e *Env) {
 		e.R.Violate(c03Key(c, o), what, c, map[string]any{"tree": o.Tree, "result": o.Res.Summary(), "goroutines": o.Res.HangDump, "output_state_when_stopped": o.StateAtStop})
 	})
 	runC03AfterAborts(e)
+	runNextToCancelled(e, lp, true)
 	e.R.SetExtra("hangs", hangs)
 	e.R.SetExtra("hook_hits", verifhook.AllHits())
 	e.R.Require(e.R.Counter("completed") >= e.Pick(700, 1500), fmt.Sprintf("only %d transfers completed", e.R.Counter("completed")))
